@@ -1,22 +1,7 @@
 (* C18 on the Server model: the method-call branch of the loop is the round-robin SelectAll of
    RoundRobin.v; no connection is served twice while another one has a call available. *)
-From ZV Require Import Server.Server Server.RoundRobin.
+From ZV Require Import Server.Server Server.ServerLists Server.RoundRobin.
 From Coq Require Import Lia.
-
-Lemma nth_error_upd_nth_neq {A} (l : list A) i j x : i <> j -> nth_error (upd_nth i x l) j = nth_error l j.
-Proof.
-  revert i j. induction l as [|h t IH]; intros i j H; [destruct i; reflexivity|].
-  destruct i, j; cbn; try congruence; auto.
-Qed.
-
-Lemma nth_error_upd_nth_eq {A} (l : list A) i x : i < length l -> nth_error (upd_nth i x l) i = Some x.
-Proof.
-  revert i. induction l as [|h t IH]; intros i H; cbn in H; [lia|].
-  destruct i; cbn; [reflexivity|]. apply IH. lia.
-Qed.
-
-Lemma length_upd_nth {A} (l : list A) i x : length (upd_nth i x l) = length l.
-Proof. revert i. induction l as [|h t IH]; intros [|i]; cbn; auto. Qed.
 
 Lemma first_ready_ext r1 r2 o : (forall j, In j o -> r1 j = r2 j) -> first_ready r1 o = first_ready r2 o.
 Proof.
@@ -50,6 +35,13 @@ Lemma poll_order_lt last n i : In i (poll_order last n) -> i < n.
 Proof.
   destruct n as [|n']; [intros []|]. rewrite poll_order_rot by lia. cbv zeta.
   pose proof (start_index_lt last (S n') ltac:(lia)).
+  rewrite in_app_iff, !in_seq. lia.
+Qed.
+
+Lemma poll_order_all last n j : j < n -> In j (poll_order last n).
+Proof.
+  intros H. rewrite poll_order_rot by lia. cbv zeta.
+  pose proof (start_index_lt last n ltac:(lia)).
   rewrite in_app_iff, !in_seq. lia.
 Qed.
 
